@@ -49,6 +49,9 @@ KIND_BY_MSG = [
     ("trait method implementation", "ensures"),
 ]
 
+PANIC_KINDS = {"index", "overflow", "div0", "unwrap"}
+PANIC_PROPS = {"C01", "C02"}
+
 RESOURCE_MSGS = ("Resource limit (rlimit) exceeded", "resource limit", "timed out", "Verus Internal Error",
                  "solver returned unknown", "smt solver", "rlimit")
 
@@ -426,6 +429,14 @@ def _run_unit_once(unit_path, repo="/repo", tier="quick", seed=0, keep=False, ex
                 tags = fn["tags"]
             else:
                 tags = gen.unit.props
+            # A reachable panic (index, overflow, division, unwrap / expect / assert! / panic macro through the precondition of the std
+            # function) that no contract clause names is a violation of the panic-freedom properties only (C01 streams, C02 files).
+            # The functional properties sharing the function (cursor in view, round trips, ...) say nothing about it: no alarm there.
+            # Functions that serve no panic-freedom property keep their own tags.
+            if not clause_tag and (kind in PANIC_KINDS or (kind == "requires-of-callee" and clause is None)):
+                narrowed = [t for t in tags if t in PANIC_PROPS]
+                if narrowed:
+                    tags = narrowed
             res["failures"].append(dict(id=oid, props=tags, kind=kind, fn=fn_label, message=msg, where=where,
                                         source_line=src_text.strip(), clause=(clause[4] if clause and len(clause) > 4 else None),
                                         rendered=d.get("rendered", "")[:4000],
